@@ -22,3 +22,4 @@ open GoRedis
 #print axioms C05_source_ascii_case
 #print axioms C05_app_executor_dispatched
 #print axioms C05_app_executor_one_call
+#print axioms C05_source_conn_loop_is_the_modelled_one
